@@ -136,6 +136,11 @@ def _build_events():
     add("calc:element_neutron_sld", "S(pt.Ni.neutron.sld())", ["neutron"], "calc")
     add("calc:neutron_sld_norow_isotope", "S(pt.neutron_sld('C[14]O2', density=1.5))", ["neutron"], "calc")
     add("calc:fasta", "str(pt.formula('aa:A'))", ["neutron"], "calc")
+    # atoms that own an energy-dependent table, asked BEFORE any other neutron datum (some carry the table's 'E' flag, some do not)
+    add("calc:energy_dependent_first",
+        "S([a.neutron.scattering_by_wavelength(0.5)[0] for a in (pt.Er, pt.Yb, pt.Lu, pt.Dy[164], pt.Er[167], pt.Yb[174], pt.Lu[176], pt.Gd[157], pt.Sm)])",
+        ["neutron"], "calc")
+    add("calc:energy_dependent_sld", "S(pt.neutron_sld('Er2O3', density=8.6, wavelength=0.5))", ["neutron"], "calc")
     add("calc:xray_sld", "S(pt.xray_sld('H2O', density=1, energy=8.0))", ["xray"], "calc")
     add("calc:xray_sld_K_alpha", "S(pt.xray_sld('SiO2', density=2.2, wavelength=pt.Cu.K_alpha))",
         ["xray", "emission"], "calc")
